@@ -7,6 +7,9 @@ var commonAssumptions = []string{
 }
 
 var props = map[string]propMeta{
+	"C05": {Level: "model_checking", QuickS: 150, ThoroughS: 1500, NeedBin: true,
+		Rule: "16 inputs (all subsets of: value ties, several unresolved foods, three days, deep chain at the depth limit) x 26 command shapes x map iteration orders: every permutation at every single dynamic visit of a ranged map (quick: 1 deviating visit, thorough: 2) plus three persistent policies (reverse / rotate / swap at every visit); oracle = byte-identical stdout, error text and status versus the sorted-order run. A case is non-trivial when at least one visited map was delivered in a non-sorted order.",
+		Assumptions: commonAssumptions},
 	"C06": {Level: "model_checking", QuickS: 150, ThoroughS: 1500, NeedBin: true,
 		Rule: "logs = every sequence of <= 2 (thorough 3) days over the window 2021/01/23..27 and the keyword boundary dates, any order, repetition allowed x every (begin,end) pair over {absent, window dates, today, yesterday, last7, last30, boundary dates} x 8 period-aware commands + summary DATE x flag position {global, sub-command, sub-command over a global decoy} x 5 time zones (quick: position/TZ as <=1 deviation each; thorough: full product on the window). Differential oracle: same command on the log with the other days deleted and no period. A case is non-trivial when the period selects some but not all days.",
 		Assumptions: commonAssumptions},
